@@ -16,6 +16,7 @@ import GwModel.ExecSeq
 import GwModel.ScrubApply
 import GwModel.MergeSig
 import GwModel.NewOpts
+import GwModel.GwQuery
 /-! gwdrv: one JSON object per line in, one per line out (DESIGN §2.2). Core + Lean.Data.Json only. -/
 open Lean Codec
 
@@ -254,6 +255,62 @@ def decArgDefs (js : List Json) : List Ms.ArgDef :=
   js.map fun a => { name := getStr a "name", type := decTy ((getObj? a "type").getD (Json.mkObj [])),
                     default := (getObj? a "default").bind fun d => match d with | .null => none | _ => some (decV d) }
 
+/-! the gateway's own resolver (`Gq.query`) -/
+def decGqVal (j : Json) : Gq.Val :=
+  match getStr j "k" with
+  | "var" => .var (getStr j "v")
+  | "str" => .str (getStr j "v")
+  | "bool" => .bool (getBool j "v")
+  | "null" => .null
+  | _ => .other (getStr j "v")
+
+def decGqVV (j : Json) : Gq.VV :=
+  match getStr j "k" with
+  | "str" => .str (getStr j "v")
+  | "bool" => .bool (getBool j "v")
+  | "null" => .null
+  | _ => .other (getStr j "v")
+
+def decGqDirs (j : Json) : List Gq.Dir :=
+  (getArr j "dirs").map fun d => ⟨getStr d "name", (getObj? d "if").map decGqVal⟩
+
+partial def decGqSel (j : Json) : Gq.Sel :=
+  match getStr j "kind" with
+  | "field" => .field (getStr j "key") (getStr j "name") ((getArr j "args").map fun a => (getStr a "name", decGqVal ((getObj? a "value").getD (Json.mkObj []))))
+      (decGqDirs j) ((getArr j "sub").map decGqSel)
+  | "inline" => .inline (decGqDirs j) ((getArr j "sub").map decGqSel)
+  | _ => .spread (getStr j "name") (decGqDirs j)
+
+/-- the resolvers: the gateway's `node` wants a string id (gateway.go makeNodeField); the others echo their name and string arguments and
+    fail when an argument is the string "fail" -/
+def gqResolve (name : String) (args : List (String × Gq.VV)) : Except String String :=
+  if name == "node" then
+    match args.lookup "id" with
+    | some (.str s) => .ok s
+    | some .null | none => .error "argument 'id' is required"
+    | _ => .error "invalid ID type"
+  else
+    if args.any (fun a => a.2 == .str "fail") then .error ("resolver of " ++ name ++ " failed")
+    else .ok (name ++ (args.foldl (fun acc a => acc ++ ":" ++ (match a.2 with
+      | .str s => s | .bool b => (if b then "true" else "false") | .null => "null" | .other r => r)) ""))
+
+def runGatewayQuery (j : Json) : Json :=
+  let sels := (getArr j "sels").map decGqSel
+  let frags : List Gq.Frag := (getArr j "frags").map fun f => ⟨getStr f "name", (getArr f "sub").map decGqSel⟩
+  let vars : Gq.Vars := (getArr j "vars").map fun v => (getStr v "name", decGqVV ((getObj? v "value").getD (Json.mkObj [])))
+  let env : Gq.Env := { types := strList j "types", fields := strList j "fields", resolve := gqResolve }
+  let out := Gq.query env frags vars 64 sels
+  Json.mkObj [("answers", .arr (out.map fun (k, a) =>
+    match a with
+    | .typename => Json.mkObj [("key", .str k), ("kind", .str "typename")]
+    | .schema => Json.mkObj [("key", .str k), ("kind", .str "schema")]
+    | .typeFound n => Json.mkObj [("key", .str k), ("kind", .str "type"), ("v", .str n)]
+    | .typeMissing => Json.mkObj [("key", .str k), ("kind", .str "null")]
+    | .entity id => Json.mkObj [("key", .str k), ("kind", .str "entity"), ("v", .str id)]
+    | .failed m => Json.mkObj [("key", .str k), ("kind", .str "failed"), ("v", .str m)]
+    | .crash => Json.mkObj [("key", .str k), ("kind", .str "crash")]
+    | .nothing => Json.mkObj [("key", .str k), ("kind", .str "nothing")]).toArray)]
+
 /-- {"opts":[{"k":"planner","id":n} | {"k":"priorities","l":[..]} | {"k":"factory","f":n} |
     {"k":"middlewares","ms":[{"r":bool,"id":n}]} | {"k":"other"}]} through `Nw.build` -/
 def runNewOptions (j : Json) : Json :=
@@ -284,6 +341,7 @@ def handle (j : Json) : Json :=
   | "merge" => runMerge j
   | "mergesig" => runMergeSig j
   | "new-options" => runNewOptions j
+  | "gateway-query" => runGatewayQuery j
   | "plan" => PlanCodec.runPlan j
   | "trace" => runTrace j
   | "exec" => runExec j
